@@ -237,3 +237,16 @@ Example c06_wrapper_example :
      = [Ok [0; 1]; Ok [0; 2]; Ok []; Ok [0; 2; 3]]%nat
   /\ h_outputs ops = map exec_of (hspec_renders ops).
 Proof. cbv zeta. split; [|split]; vm_compute; reflexivity. Qed.
+
+(* THE TEMPLATE ITSELF.  Model/Tpl.v holds the template of html/html.go as a
+   value - the tree the library's own parser makes of the string constant, read
+   from the source of the repository under test on every run - and an
+   interpreter for such trees (text/template's control flow, the wrapper's
+   data and FuncMap, html/template's contextual escaping).  The hand-written
+   model html_exec, which every theorem above is about, IS the interpretation
+   of that tree: for every wrapper setting, row-class script and table. *)
+From Tab Require Import Model.Tpl Proofs.TplProofs.
+
+Theorem c06_template_is_model : forall x, tpl_run x model_template = html_exec x.
+Proof. exact template_is_model. Qed.
+Print Assumptions c06_template_is_model.
